@@ -108,10 +108,17 @@ fn damage(bytes: &mut Vec<u8>, op: &Value) -> bool {
             // of a following subsection reads as one more entry.
             let table_end = l.entries.last().map(|e| e.1 + 20).unwrap_or(end + 1);
             let rest = String::from_utf8_lossy(&bytes[table_end.min(l.trailer_kw)..l.trailer_kw]).trim().to_string();
-            if k == 0 && !rest.is_empty() {
+            // Likewise a start that is one or two objects late: in a single-subsection table the last entry then names an
+            // object at or beyond /Size, which is unambiguous; with further subsections the entries merely name other
+            // objects of the file - cross-reference data that parses but lies, which is the offsets finding's territory.
+            if (k == 0 || k >= 2) && !rest.is_empty() {
                 return false;
             }
-            let repl: &[u8] = if k == 0 { b"0 99999" } else { b"x y" };
+            let hdr = String::from_utf8_lossy(&bytes[l.header_line..end]).to_string();
+            let mut it = hdr.split_whitespace();
+            let (first, count): (u64, u64) = (it.next().and_then(|x| x.parse().ok()).unwrap_or(0), it.next().and_then(|x| x.parse().ok()).unwrap_or(0));
+            let shifted = format!("{} {}", (first + k).saturating_sub(1), count);
+            let repl: &[u8] = if k == 0 { b"0 99999" } else if k == 1 { b"x y" } else { shifted.as_bytes() };
             let mut line = repl.to_vec();
             while line.len() < end - l.header_line { line.push(b' '); }
             if line.len() == end - l.header_line {
